@@ -1133,6 +1133,19 @@ pub fn run_until_own(t: usize, until_own: u64) {
     sim().forced = Some((t, until_own, me));
     sp(EV_SP, 0);
 }
+/// Fold engine-level information (e.g. the operation history) into the run's signature.
+pub fn sig_mix(v: u64) {
+    let s = sim();
+    let mut h = s.sig_hash;
+    h ^= v;
+    h = h.wrapping_mul(0x100000001b3);
+    s.sig_hash = h;
+}
+/// Write the statistics gathered so far into the shared block (before an expected process exit).
+pub fn flush() {
+    let _g = ShimGuard::new();
+    flush_stats();
+}
 pub fn set_auto_thaw(b: bool) {
     sim().auto_thaw = b;
 }
